@@ -25,9 +25,18 @@ EXPLANATION = (
 def check(ctx):
     rule = 'A19'
     fn = ctx.fn(f'{TLIM}:run_timeout')
+    # the function that holds the one-worker pool: the nested `_inner_run`, or a private module-level helper that is
+    # handed the limit, the function and its arguments under the same names
     inner = fn.nested.get('_inner_run')
     if inner is None:
-        raise AnalysisError('run_timeout._inner_run vanished')
+        for h in unit_functions(ctx.prog, fn)[1:]:
+            if any(isinstance(w, ast.With) and 'ThreadPool' in norm(w.items[0].context_expr) for w in walk_fn(h)):
+                cs = [c for c in calls(fn) if call_name(c) == h.name]
+                if cs and [norm(a) for a in cs[0].args] == list(h.params) and not cs[0].keywords:
+                    inner = h
+    if inner is None:
+        raise AnalysisError('run_timeout: the function holding the worker pool (_inner_run) vanished')
+    INNER = inner.name
     ctx.touch(inner)
     # statements moved into a void private helper are seen in place (extract-method invariance of the path rules)
     inner = inlined_view(ctx.prog, inner)
@@ -143,13 +152,13 @@ def check(ctx):
            f'{len(raises)} raise(s), {len(rets)} return(s), {len(falls)} fall-through exit(s)')
     # outer wrapper
     cfgo = build_cfg(fn)
-    t = [t for t in try_statements(fn) if any(call_name(c) == '_inner_run' for b in t.body for c in ast.walk(b)
+    t = [t for t in try_statements(fn) if any(call_name(c) == INNER for b in t.body for c in ast.walk(b)
                                               if isinstance(c, ast.Call))]
     def _returns_inner(t_):
         # `return _inner_run()` in the try body, or `r = _inner_run()` there and `return r` in its else part
         held = {norm(a.targets[0]) for a in t_.body if isinstance(a, ast.Assign) and isinstance(a.value, ast.Call) and
-                call_name(a.value) == '_inner_run'}
-        return any(isinstance(s_, ast.Return) and isinstance(s_.value, ast.Call) and call_name(s_.value) == '_inner_run'
+                call_name(a.value) == INNER}
+        return any(isinstance(s_, ast.Return) and isinstance(s_.value, ast.Call) and call_name(s_.value) == INNER
                    for s_ in t_.body) or \
             any(isinstance(s_, ast.Return) and s_.value is not None and norm(s_.value) in held for s_ in t_.orelse)
     ok = bool(t) and [nm for h in t[0].handlers for nm in handler_type_names(h)] == ['TimeoutError'] and \
